@@ -231,6 +231,82 @@ def r4_coverage_algebra(ctx, rule):
                "guard to the save inserts M", facts)
 
 
+def r21_unit_tallies(ctx, rule):
+    """Every tally is by one, every found item is tallied, and the base structure is the string of LABELS.
+
+    In PCFGPasswordParser.parse (and its length-indexed helper) every `self.count_*[k] += c` has c == 1 (a relative frequency is
+    count / total: 2 for one kind of item and 1 for the others is another model); every list a detector returns next to the
+    section list is consumed by a loop that tallies each element, or by the length-indexed helper; base_structure_creation joins
+    `section[1]` - the label - of every section.  (Mutation sweep: `+= 2`, a deleted tally, `base_structure.append(section[0])`
+    were all silent before this rule.)"""
+    q = PARSER + 'parse'
+    fn = ctx.fn(q)
+    ctx.stats['functions'].add(q)
+    ok = True
+    n = 0
+    helper = ctx.repo.modules[q.partition('::')[0]].funcs.get('PCFGPasswordParser._update_counter_len_indexed')
+    for f_ in [fn] + ([helper] if helper is not None else []):
+        for st in walk_local(f_):
+            if isinstance(st, ast.AugAssign) and isinstance(st.target, ast.Subscript) and isinstance(st.op, ast.Add) \
+                    and ('count' in U(st.target.value) or 'counter' in U(st.target.value)):
+                n += 1
+                if const(st.value) != 1 or isinstance(const(st.value), bool):
+                    ok = False
+                    ctx.bad(rule, q, 'tally %s += %s' % (U(st.target)[:50], U(st.value)[:20]), 'every occurrence counts once', None, st, firm=True)
+    # found lists are consumed
+    found = {}
+    for st in walk_local(fn):
+        if isinstance(st, ast.Assign) and isinstance(st.value, ast.Call) and call_name(st.value) and not call_name(st.value).startswith('self.') \
+                and any(U(a) == 'section_list' for a in st.value.args):
+            tg = st.targets[0]
+            names = [e.id for e in tg.elts if isinstance(e, ast.Name)] if isinstance(tg, ast.Tuple) else ([tg.id] if isinstance(tg, ast.Name) else [])
+            for nm in names:
+                if nm != 'section_list' and nm.startswith('found'):
+                    found[nm] = st
+    consumed = set()
+    for st in walk_local(fn):
+        if isinstance(st, ast.For) and isinstance(st.iter, ast.Name) and st.iter.id in found and isinstance(st.target, ast.Name):
+            v = st.target.id
+            if any(isinstance(b, ast.AugAssign) and isinstance(b.target, ast.Subscript) and U(b.target.slice) == v and 'count' in U(b.target.value)
+                   for b in st.body):
+                consumed.add(st.iter.id)
+        if isinstance(st, ast.Call) and call_name(st) == 'self._update_counter_len_indexed' and len(st.args) == 2 and isinstance(st.args[1], ast.Name):
+            consumed.add(st.args[1].id)
+        # Counter.update(<list>) tallies every element once as well
+        if isinstance(st, ast.Call) and isinstance(st.func, ast.Attribute) and st.func.attr == 'update' and 'count' in U(st.func.value) \
+                and len(st.args) == 1 and isinstance(st.args[0], ast.Name):
+            consumed.add(st.args[0].id)
+        # any other use (passed to a helper, iterated by a comprehension) is not judged
+        if isinstance(st, ast.Call) and not (call_name(st) or '').endswith(('_detection', 'detect')):
+            for a in st.args:
+                if isinstance(a, ast.Name) and a.id in found and call_name(st) not in ('print', 'len'):
+                    consumed.add(a.id)
+        if isinstance(st, (ast.ListComp, ast.GeneratorExp, ast.SetComp, ast.DictComp)):
+            for g in st.generators:
+                if isinstance(g.iter, ast.Name) and g.iter.id in found:
+                    consumed.add(g.iter.id)
+    for nm in sorted(set(found) - consumed):
+        ok = False
+        ctx.bad(rule, q, 'the items in %s are never tallied' % nm, 'what a detector finds is counted: the list is looped over with '
+                '`self.count_..[item] += 1` or handed to the length-indexed helper', None, found[nm], firm=True)
+    # labels
+    bfn = ctx.fn(BS)
+    ctx.stats['functions'].add(BS)
+    loops = [l for l in walk_local(bfn) if isinstance(l, ast.For) and U(l.iter) == params(bfn)[0] and isinstance(l.target, ast.Name)]
+    apps = [c for l in loops for c in calls_in(l) if isinstance(c.func, ast.Attribute) and c.func.attr == 'append' and len(c.args) == 1]
+    if len(loops) == 1 and len(apps) == 1:
+        sv = loops[0].target.id
+        if U(apps[0].args[0]) != '%s[1]' % sv:
+            ok = False
+            ctx.bad(rule, BS, 'the base structure collects %s' % U(apps[0].args[0]), 'a base structure is the sequence of the section LABELS '
+                    '(second component of a section)', None, apps[0], firm=True)
+    elif not any(isinstance(x, (ast.ListComp, ast.GeneratorExp)) for x in ast.walk(bfn)):
+        ctx.unk(rule, BS, 'the way base_structure_creation collects the labels is not of a form this rule knows')
+        ok = False
+    if ctx.floor(rule, q, n, 6, 'tally statements') and ctx.floor(rule, q, len(found), 8, 'detector result lists') and ok:
+        ctx.ok(rule, q, '%d tallies by one; %d detector result lists all consumed; base structure = labels' % (n, len(found)))
+
+
 def r5_supported_only(ctx, rule):
     q = PARSER + 'parse'
     fn = ctx.fn(q)
@@ -470,7 +546,9 @@ def rules(tier):
             # ruleset files hold one complete list
             ('C06.R19', _shared_rule('plumbing', 'writers_truncate')),
             # probabilities reach the files with all their digits
-            ('C06.R20', _shared_rule('plumbing', 'float_text_exact'))]
+            ('C06.R20', _shared_rule('plumbing', 'float_text_exact')),
+            # mutation sweep: += 2, a deleted tally, append(section[0]) in base_structure_creation
+            ('C06.R21', _shared_rule('c06', 'r21_unit_tallies'))]
 
 
 META = {
